@@ -29,6 +29,7 @@ def run(tier, seed):
     tot = {"traces": 0, "events": 0, "images_real": 0, "states": 0, "transitions": 0, "flushes": 0}
     placements = 0
     samples = []
+    lockfiles = []
     for w in range(nwork):
         base = ["--seed", str(rng.randrange(1 << 30)), "--steps", str(22 if tier == "quick" else 35),
                 "--fmt", "3", "--blocks", "40", "--cpus", "2", "--keys", "3", "--ttl", "1",
@@ -42,7 +43,9 @@ def run(tier, seed):
         jobs = []
         for i in range(n):
             for mode in (1, 2):
-                jobs.append(("w%d_f%d_%d" % (w, i, mode), base + ["--faultat", str(i), "--faultmode", str(mode)]))
+                tagj = "w%d_f%d_%d" % (w, i, mode)
+                jobs.append((tagj, base + ["--faultat", str(i), "--faultmode", str(mode), "--lockout", os.path.join(rd, tagj + ".locks")]))
+                lockfiles.append(os.path.join(rd, tagj + ".locks"))
         for i in sorted(rng.sample(range(n), min(n, 8 if tier == "quick" else 20))):
             jobs.append(("w%d_from%d" % (w, i), base + ["--faultat", str(i), "--faultmode", str(rng.choice([1, 2])),
                                                      "--faultfrom", "1"]))
@@ -86,6 +89,24 @@ def run(tier, seed):
     all_viol += viol
     for k in tot:
         tot[k] += st.get(k, 0)
+    # containment includes the locks: the nestings that the FAILURE paths take (scrub and release under the device
+    # lock, quarantine, poison) together with those of the ordinary paths of the same runs (flush callers, metadata
+    # step, retirement) - Locks.tla lets two threads run any two of the observed words in every interleaving: a
+    # failure path that takes two locks in the opposite order of a healthy path would hang the next flush for good
+    from checks import c18
+    import collections
+    words = collections.Counter()
+    for lf in lockfiles:
+        words.update(c18.words_of(lf))
+    lock_states = 0
+    if len(words) >= 4:
+        lv, ls, lt = c18.lock_model(rd, words, threads=(2,), label="c09")
+        lock_states = ls
+        tot["states"] += ls
+        tot["transitions"] += lt
+        if lv:
+            lv["what"] = "under an I/O failure: " + lv["what"]
+            all_viol.append(lv)
     # fault story: the failed batch owns the head of a retired multi-block extent, another worker's
     # acknowledged record lies inside that extent; judged as a sequential history by TraceStore.tla
     import seqengine as sq
